@@ -42,9 +42,13 @@ Open Scope Z_scope.
    jump left - followed by the handler's exit statement.  Proof: induction over the program for the execution
    (LingoNestExec.exec_p; the backward jump gathers the statements of its loop), induction over the nesting depth and
    the statement list for the passes (LingoNestFacts.detect_nest). *)
+(* Since the execution part also knows  exit repeat  (SpecNest.PExit: a forward jump whose operand is checked by
+   [exits_ok] to lead to the address after the back jump of the innermost loop around it, from any place of the body -
+   directly, in a then or else part, followed by further statements), the theorem below covers nests with exits too;
+   its name is kept.  [exits_ok None p]: no exit outside a loop. *)
 Theorem C03_exit_free_nests_rebuilt_unbounded :
   forall en props p d off fuel r m,
-  wf_p wcond_ok en p -> agrees_p en props m -> m_stack m = [] -> f_stmts (m_fn m) = [] ->
+  wf_p wcond_ok en p -> exits_ok None p -> agrees_p en props m -> m_stack m = [] -> f_stmts (m_fn m) = [] ->
   code_at d off (compile_p p ++ [b 1]) ->
   let pexit := off + zlen (compile_p p) in
   let exit_st := Stmt pexit (Call "exit" pexit None true false false) in
@@ -110,6 +114,24 @@ Proof. cbn. repeat split; try lia; try discriminate; intros; reflexivity. Qed.
 Example C03_nest3_run :
   decompile_handler (compile_p nest3 ++ [b 1])
   = Ok (rebuilt flow_env [] 0 nest3 ++ [let e := zlen (compile_p nest3) in Stmt e (Call "exit" e None true false false)]).
+Proof. vm_compute. reflexivity. Qed.
+
+(* a nest with exits at the execution level: in a then part after a statement, alone in a then part with an else part
+   that ends in an exit, and directly in the loop body followed by a statement; the offsets are the ones Director
+   writes (exits_ok) *)
+Definition exits_prog : prog :=
+  PStmt (put_s 1)
+   (PWhile (c_lt 2)
+      (PStmt (put_s 3)
+       (PIf (c_lt 4) (PStmt (put_s 5) (PExit 37 PNil))
+       (PIfE (c_lt 6) (PExit 26 PNil) (PStmt (put_s 7) (PExit 14 PNil))
+       (PExit 11 (PStmt (put_s 8) PNil)))))
+   (PStmt (put_s 9) PNil)).
+Example C03_exits_prog_wf : wf_p wcond_ok flow_env exits_prog /\ exits_ok None exits_prog.
+Proof. cbn. repeat split; try lia; try discriminate; try (intros; reflexivity); eexists; split; reflexivity. Qed.
+Example C03_exits_prog_run :
+  decompile_handler (compile_p exits_prog ++ [b 1])
+  = Ok (rebuilt flow_env [] 0 exits_prog ++ [let e := zlen (compile_p exits_prog) in Stmt e (Call "exit" e None true false false)]).
 Proof. vm_compute. reflexivity. Qed.
 
 (* ---- unbounded part, with counting loops ---- *)
